@@ -492,7 +492,9 @@ def _find_registered_methods(cls, selector):
       new_selector = selector + '.' + method_info.name
       method_info = method_info._replace(
           module=selector, selector=new_selector, is_method=True)
-      _RENAMED_SELECTORS[old_selector] = new_selector
+      # Keyed by the method as well: two classes of one Python module may both
+      # have a registered method of this name, i.e. the same old selector.
+      _RENAMED_SELECTORS[(old_selector, method)] = new_selector
       _REGISTRY.pop(old_selector)
       _REGISTRY[new_selector] = method_info
       _INVERSE_REGISTRY[method] = method_info
@@ -1519,7 +1521,7 @@ def _make_gin_wrapper(fn, fn_or_cls, name, selector, allowlist, denylist):
   @functools.wraps(fn)
   def gin_wrapper(*args, **kwargs):
     """Supplies fn with parameter values from the configuration."""
-    current_selector = _RENAMED_SELECTORS.get(selector, selector)
+    current_selector = _RENAMED_SELECTORS.get((selector, fn_or_cls), selector)
     new_kwargs = _get_bindings(current_selector)
     gin_bound_args = list(new_kwargs.keys())
     scope_str = '/'.join(current_scope())
